@@ -43,7 +43,7 @@ ASSUMPTIONS = [
     'engine.io contains exceptions raised by the message handler (trusted)',
     "the offender's own connection may be left unusable",
 ]
-BUDGET = {'quick': 1200, 'thorough': 100000}
+BUDGET = {'quick': 2400, 'thorough': 100000}
 FLOOR = {'quick': 100, 'thorough': 5000}
 NSS = ['/', '/x', '/c', '/none']
 
